@@ -137,5 +137,53 @@ example : conflict 0 (.write (.shared 0) (fun _ => 1)) 1 (.read (.shared 0)) :=
 
 example : ¬ NoSharedWrite racy := fun h => h 0 (.shared 0) (fun _ => 1) (by simp [racy]) 0 rfl
 
+/-! ### non-vacuity, by name -/
+
+/-- non-vacuity of `interleaving_equals_solo` (and of `result_equals_solo`, which has the same
+    hypotheses): the two-thread system `demo`, whose threads read both shared locations and
+    write, then read back, memory of their own -/
+theorem interleaving_equals_solo_nonvacuous : NoSharedWrite demo ∧ WellScoped demo := by
+  constructor
+  · intro i l f hm n
+    match i with
+    | 0 => simp [demo] at hm; obtain ⟨rfl, _⟩ := hm; simp
+    | 1 => simp [demo] at hm; obtain ⟨rfl, _⟩ := hm; simp
+    | _+2 => simp [demo] at hm
+  · intro i st hm j n hl
+    match i with
+    | 0 => simp [demo] at hm; rcases hm with rfl | rfl | rfl | rfl | rfl <;> simp [Step.loc?] at hl <;> omega
+    | 1 => simp [demo] at hm; rcases hm with rfl | rfl | rfl | rfl <;> simp [Step.loc?] at hl <;> omega
+    | _+2 => simp [demo] at hm
+
+/-- non-vacuity of `result_equals_solo`: same witness -/
+theorem result_equals_solo_nonvacuous : NoSharedWrite demo ∧ WellScoped demo :=
+  interleaving_equals_solo_nonvacuous
+
+/-- the theorem applied: in the schedule below thread 1 has read, after 4 of its steps, what it
+    reads alone — [9, 7, 32], computed from both shared values -/
+example : (runInterleaved demo demoStore [1, 0, 0, 1, 1, 0, 0, 1, 0]).hist 1 = [9, 7, 32] :=
+  (interleaving_equals_solo demo demoStore interleaving_equals_solo_nonvacuous.1
+    interleaving_equals_solo_nonvacuous.2 [1, 0, 0, 1, 1, 0, 0, 1, 0] 1).1.trans (by decide)
+
+/-- non-vacuity of `completed_equals_solo`: `demo` again; under this schedule (9 steps, 5 of
+    thread 0 and 4 of thread 1, interleaved) both threads have run to completion -/
+theorem completed_equals_solo_nonvacuous :
+    NoSharedWrite demo ∧ WellScoped demo ∧
+    (runInterleaved demo demoStore [1, 0, 0, 1, 1, 0, 0, 1, 0]).rest 0 = [] ∧
+    (runInterleaved demo demoStore [1, 0, 0, 1, 1, 0, 0, 1, 0]).rest 1 = [] ∧
+    (demo 0).length = 5 ∧ (demo 1).length = 4 :=
+  ⟨interleaving_equals_solo_nonvacuous.1, interleaving_equals_solo_nonvacuous.2, rfl, rfl, rfl, rfl⟩
+
+/-- non-vacuity of `no_conflict`: two steps of different threads of `demo` on the same location —
+    both read shared location 0, which is all that keeps them from conflicting; and a write of
+    thread 0 next to a read of thread 1 -/
+theorem no_conflict_nonvacuous :
+    NoSharedWrite demo ∧ WellScoped demo ∧
+    Step.read (.shared 0) ∈ demo 0 ∧ Step.read (.shared 0) ∈ demo 1 ∧
+    (Step.read (.shared 0)).loc? = (Step.read (.shared 0)).loc? ∧ (0 : Nat) ≠ 1 ∧
+    Step.write (.priv 0 0) (fun h => h.sum + 1) ∈ demo 0 ∧ Step.read (.priv 1 5) ∈ demo 1 :=
+  ⟨interleaving_equals_solo_nonvacuous.1, interleaving_equals_solo_nonvacuous.2,
+   by simp [demo], by simp [demo], rfl, by decide, by simp [demo], by simp [demo]⟩
+
 end Props.C20
 end AgeModel
